@@ -102,7 +102,7 @@ type Case struct {
 
 func fileName(tape *sim.Tape, i int, exts []string) string {
 	ext := exts[tape.Draw(len(exts))]
-	names := []string{"a", "b", "main", "x.min", "index", "z"}
+	names := []string{"a", "b", "main", "x.min", "index", "z", "my file", "-dash", "ünï", "UPPER"}
 	n := names[tape.Draw(len(names))] + fmt.Sprint(i)
 	if ext == "" {
 		return n
